@@ -368,10 +368,42 @@ func (r *run) topUp() {
 		// misses it learns the command only from a committed block
 		for _, m := range r.honest() {
 			if k == 0 || r.rng.Intn(5) > 0 { // (the first one reaches everybody: a leader is never starved)
-				m.Submit(&clientpb.Command{ClientID: uint32(cl), SequenceNumber: uint64(seq), Data: []byte{byte(cl), byte(seq), byte(seq >> 8)}})
+				cmd := &clientpb.Command{ClientID: uint32(cl), SequenceNumber: uint64(seq), Data: []byte{byte(cl), byte(seq), byte(seq >> 8)}}
+				if r.rng.Intn(2) == 0 {
+					m.SubmitReal(cmd) // through the real request handler
+				} else {
+					m.Submit(cmd)
+				}
 			}
 		}
 		r.cmdLog = append(r.cmdLog, [2]int{cl, seq})
+	}
+	// a request that arrives late (or a client that tries another replica): an earlier command reaches a replica it had not
+	// reached yet, through the real handler -- preferably a command that replica has skipped (it executed a later command of the
+	// same client but not this one)
+	if len(r.cmdLog) > 4 && r.rng.Intn(4) == 0 {
+		hon := r.honest()
+		m := hon[r.rng.Intn(len(hon))]
+		c := r.cmdLog[r.rng.Intn(len(r.cmdLog))]
+		done := map[[2]int]bool{}
+		high := map[int]int{}
+		for _, e := range m.Executed {
+			done[[2]int{int(e[0]), int(e[1])}] = true
+			high[int(e[0])] = max(high[int(e[0])], int(e[1]))
+		}
+		var skipped [][2]int
+		for _, x := range r.cmdLog {
+			if x[1] < high[x[0]] && !done[x] && !m.Submitted[clientpb.MessageID{ClientID: uint32(x[0]), SequenceNumber: uint64(x[1])}] {
+				skipped = append(skipped, x)
+			}
+		}
+		if len(skipped) > 0 && r.rng.Intn(3) > 0 {
+			c = skipped[r.rng.Intn(len(skipped))]
+		}
+		cmd := &clientpb.Command{ClientID: uint32(c[0]), SequenceNumber: uint64(c[1]), Data: []byte{byte(c[0]), byte(c[1]), byte(c[1] >> 8)}}
+		if !m.Submitted[cmd.ID()] {
+			m.SubmitReal(cmd)
+		}
 	}
 }
 
